@@ -161,6 +161,15 @@ inline size_t mutate(uint8_t *data, size_t size, size_t maxsize, unsigned seed, 
         tp[o] = uint8_t(k == 0 ? tp[o] + 1 : k == 1 ? tp[o] - 1 : k == 2 ? tp[o] ^ (1u << r(8)) : r(0x43));
         return size;
     }
+    if (how >= 85 && how < 89 && t.len >= 8) {                   // coordinated pair: two nearby 16-bit fields moved together (sum- or difference-
+        size_t o = r(unsigned(t.len - 7)) & ~size_t(1);          // preserving), e.g. numIDs / rangeShift of a lookup class or cmap search header
+        size_t o2 = o + 2 * (1 + r(3));
+        unsigned d = r(2) ? 1 + r(4) : B16[r(12)];
+        unsigned a = (tp[o] << 8) | tp[o + 1], b = (tp[o2] << 8) | tp[o2 + 1];
+        wbe16(tp + o, (a + d) & 0xFFFF);
+        wbe16(tp + o2, (r(2) ? b + d : b - d) & 0xFFFF);
+        return size;
+    }
     if (how < 92 && t.len >= 4) {                                // swap two bytes / copy a run inside the table
         size_t a = r(unsigned(t.len)), b = r(unsigned(t.len));
         if (r(2)) { uint8_t x = tp[a]; tp[a] = tp[b]; tp[b] = x; }
